@@ -14,6 +14,10 @@ import DigModel.Proofs.ReachApi
   group parameter makes reachable are the decorators of the group registered on the path to the root (and what
   *they* need); when no scope on the path decorates the group, a soft group parameter makes **nothing**
   reachable — so, by `C03_only`, an Invoke never enters a constructor on account of a soft group.
+  `C11_soft_group_is_the_history_account` / `C11_account_holds_during_resolution` (whole programs, no DryRun, invariant
+  `GX`): what the soft group receives is exactly — all of it, nothing twice — the grouped results of the successful
+  executions recorded in the history up to that moment of the constructors living on the path to the root: those
+  executed before the Invoke began and those the other fields of the same parameter object made run.
 -/
 namespace Dig.C11
 
@@ -46,6 +50,32 @@ theorem C11_never_triggers (st : St) (c : Nat) (k : Key)
   rw [hd s hs] at hdec
   cases hdec
 
+/-- in a container in which the group stores are the history's account (`GX`: every reachable container without DryRun,
+    and every container a resolution passes through from there), an undecorated soft group parameter receives exactly
+    the grouped results of the successful executions recorded so far of the constructors living on the path to the
+    root — all of them, none twice — and runs nothing -/
+theorem C11_soft_group_is_the_history_account (ctx : Ctx) (fuel : Nat) (k : Key) (c : Nat) (st : St) (hgx : GX ctx st)
+    (hd : ∀ s ∈ st.ancestors c, aget (st.scope s).decorators k = none)
+    (hg : ∀ s ∈ st.ancestors c, aget (st.scope s).decoratedGroups k = none) :
+    buildGroup ctx (fuel + 1) k true c st =
+      (.ok (.sl ((st.ancestors c).flatMap fun s => st.hist.flatMap (evContrib ctx st s k))), st) := by
+  rw [C11_silent ctx fuel k c st hd hg]
+  congr 3
+  exact flatMap_congr' _ _ _ (fun s _ => hgx s k)
+
+/-- that account holds in every reachable container and at every moment of building a parameter (list) from there:
+    whatever the non-soft fields of a parameter object made run is in the history when the soft fields are built
+    (`C11_soft_last`) -/
+theorem C11_account_holds_during_resolution (p : Program) (hnd : p.cfg.dry = false) (fuel : Nat) (c : Nat) :
+    GX p.ctx (runProgram p).1 ∧
+    (∀ ps, GX p.ctx (buildList p.ctx fuel ps c (runProgram p).1).2) ∧
+    (∀ x, GX p.ctx (buildParam p.ctx fuel x c (runProgram p).1).2) := by
+  have hnb : NBInv p.types (runProgram p).1 := NBInv.runOps p.ctx p.fns p.ops 0 {} [] (NBInv.init _)
+  exact ⟨gx_program p hnd, fun ps => (gx_program p hnd).buildList hnd hnb.home fuel ps c,
+    fun x => (gx_program p hnd).buildParam hnd hnb.home fuel x c⟩
+
+#print axioms C11_soft_group_is_the_history_account
+#print axioms C11_account_holds_during_resolution
 #print axioms C11_silent
 #print axioms C11_reaches_only_decorators
 #print axioms C11_never_triggers
